@@ -97,12 +97,20 @@ def run(chk):
                         fresh_bad.append((s, i, got))
         finally:
             ws.close()
-        scenario.validate_sessions(chk, sc, sessions, c12.describe(sc))
+        verdicts = scenario.validate_sessions(chk, sc, sessions, c12.describe(sc))
+        tid_of = {id(s): k for k, s in enumerate(sessions, 1)}
         for s, i, got in fresh_bad[:50]:
+            # what TLC found for the session this load belongs to: when the recorded outcomes are those of the
+            # specification on the schema with the leaked implementer names (deviation LeakedSchema, finding D9b),
+            # a used schema accepting what a fresh copy refuses is that finding seen from the other side
+            v = verdicts.get(tid_of[id(s)]) or {}
             chk.disagree({"clause": "differs-from-fresh-schema", "direction": "V",
                           "schema_xml": schemas.to_xml(sc.docs[s["sid"] - 1]),
                           "loads": [sc.items[j]["files"] for j in s["_items"]], "load": sc.items[i]["files"],
-                          "fresh_outcome": got, "class": {"clause": "differs-from-fresh-schema"}})
+                          "fresh_outcome": got,
+                          "class": {"clause": "differs-from-fresh-schema", "lenient": v.get("lenient"),
+                                    "outcome_follows_leak": bool(v.get("leakused")),
+                                    "fresh_copy": "rejects" if got["r"] == "err" else "accepts"}})
         chk.sample({"session": [sc.items[i]["files"]["d/main.conf"] for i in sessions[0]["_items"]],
                     "ops": [st["op"] for st in sessions[0]["steps"]]})
         chk.note("sessions", len(sessions))
